@@ -123,13 +123,27 @@ def run(ctx):
     hout = os.path.join(ctx.tmp, 'helpers.jsonl')
     rc, log = vlib.run([h, 'helpers', hout, ctx.tier], env=env, timeout=900)
     if rc != 0:
-        raise RuntimeError('c03 helper evaluation failed: ' + log[-2000:])
-    cases = [json.loads(l) for l in open(hout)]
+        if 'panic:' in log or 'fatal error:' in log:
+            # the helper process died inside OPA / a regal builtin: that is a crash of the code under test
+            vlib.violation(ctx, {'kind': 'panic', 'what': 'evaluating the framework helpers through OPA crashed the process',
+                                 'log': log[:3000]}, no_input=True)
+        else:
+            raise RuntimeError('c03 helper evaluation failed: ' + log[-2000:])
+    cases = [json.loads(l) for l in open(hout)] if os.path.exists(hout) else []
     pout = os.path.join(ctx.tmp, 'propagation.jsonl')
     rc, log = vlib.run([h, 'propagation', pout, ctx.tier], env=env, timeout=900)
+    props = []
     if rc != 0:
-        raise RuntimeError('c03 propagation scenarios failed: ' + log[-2000:])
-    props = [json.loads(l) for l in open(pout)]
+        if 'panic:' in log or 'fatal error:' in log:
+            # linter.Lint crashed the process on the six-file pool of the propagation scenarios (harness/corpus/propagate.go);
+            # the corpus run below isolates crashes per module and names the culprit
+            m = re.search(r'(panic: [^\n]*|fatal error: [^\n]*)', log)
+            vlib.violation(ctx, {'kind': 'panic', 'what': 'linter.Lint crashes the process while linting the propagation pool: ' + (m.group(1) if m else ''),
+                                 'log': log[:3000]}, signature={'kind': 'panic', 'key': (m.group(1) if m else 'panic')[:120]})
+        else:
+            raise RuntimeError('c03 propagation scenarios failed: ' + log[-2000:])
+    else:
+        props = [json.loads(l) for l in open(pout)]
     cases += props
     coq, keep, unrep = [], [], []
     for c in cases:
@@ -139,19 +153,13 @@ def run(ctx):
         else:
             coq.append(t)
             keep.append(c)
-    v = ['From Regal Require Import Check.C03Check.', 'Open Scope N_scope.',
-         'Definition cases : list c03case := ' + clist('(%s)' % t for t in coq) + '.',
-         'Definition R1 := Eval vm_compute in failing fcase_agrees 0 cases.',
-         'Definition R2 := Eval vm_compute in failing fcase_meets_spec 0 cases.',
-         'Definition R3 := Eval vm_compute in length (filter fcase_conflict cases).',
-         'Print R1. Print R2. Print R3.']
-    rc, cout = vlib.coq_eval(ctx, 'Cases_C03', '\n'.join(v))
+    ev, cout = shared.eval_cases(ctx, 'Cases_C03', 'From Regal Require Import Check.C03Check.', 'c03case', coq,
+                                 ['fcase_agrees', 'fcase_meets_spec'], ['fcase_conflict'])
     r1 = r2 = None
     conflicts_seen = 0
-    if rc == 0:
-        r1, r2 = vlib.parse_nat_list(cout, 'R1'), vlib.parse_nat_list(cout, 'R2')
-        m3 = re.search(r'R3 = (\d+)', cout)
-        conflicts_seen = int(m3.group(1)) if m3 else 0
+    if ev is not None:
+        r1, r2 = ev[0]['fcase_agrees'], ev[0]['fcase_meets_spec']
+        conflicts_seen = ev[1]['fcase_conflict']
     if r1 is None or r2 is None:
         if ctx.proofs_ok:
             raise RuntimeError('case evaluation failed:\n' + cout[-3000:])
